@@ -10,6 +10,21 @@ from common import VERIF  # noqa: E402
 TECH = "contract harnesses on the real crate discharged by Kani/CBMC (full-domain symbolic, loop-free = complete; containers bounded and labelled) + Verus history lemmas over the same contract predicates + Verus on verbatim-extracted functions"
 
 CHECKS = {
+    "C04": {
+        "text": "Function contracts on the receiver-side flow controllers (connection and stream), the window synchroniser, the peer-initiated stream-count controller, the final-size cursor logic and the MAX_STREAMS decoder / RFC 9000 error-code constants are discharged on the real crates by Kani/CBMC over full value domains (loop-free: complete); the same predicates are verified a second time by Verus directly on the verbatim-extracted bodies of IncomingConnectionFlowControllerImpl, ReceiveStreamFlowController and RemoteInitiated (layer X, unbounded); Verus history lemmas derive the credit bound (advertised <= consumed + window, buffered <= window) and 'Err leaves the state unchanged' for every history. Proof level fits because each clause decomposes into per-call contracts over integers.",
+        "note": "Not decided (glue, stated): per-space frame gating (PROTOCOL_VIOLATION), STREAM_STATE_ERROR for unopened / wrong-direction streams, the ReceiveStream::on_data / on_reset error mapping (Kani cannot execute ReceiveStream within the budget), turning a transport::Error into CONNECTION_CLOSE. LocalInitiated/RemoteInitiated with parked wakers > 0 is bounded out. Trusted: Kani/CBMC/Verus/Z3, dev-profile semantics, harness builders, layer-X dependency stubs listed in the evidence.",
+        "design": "5/C04",
+    },
+    "C06": {
+        "text": "Claimed narrowly: the duplicate-detection window (check / insert against a pointwise set model with a symbolic witness, error leaves state unchanged, eviction report exact), the header-protection algebra (remove o apply == id, only the RFC 9001 5.4.1 bits change) and the AEAD nonce construction (iv XOR padded packet number) are discharged on the real core/crypto crates by Kani/CBMC for all inputs; a Verus lemma shows by induction over any sequence of check/insert events that a packet number is accepted at most once and nothing unseen inside the window is rejected. Authenticity itself is a cryptographic assumption.",
+        "note": "A-aead: AEAD unforgeability (aws-lc/ring through FFI) is assumed. Glue unverified: that every datagram passes unprotect -> decrypt -> duplicate check before frame handling (ApplicationSpace::validate_and_decrypt_packet), stateless-reset matching. Header-protection harnesses are bounded to 8-byte packets; the 129-iteration dev self-check loop of the public insert wrapper is stubbed in the quick tier and covered only for the first insert in the thorough tier.",
+        "design": "5/C06",
+    },
+    "C08": {
+        "text": "Packet-number truncation/expansion (three full-domain 62-bit symbols: expand(truncate(pn, la), r) == pn for every admissible receiver state, minimal length per RFC 9000 A.2), decode_packet_number against an independent transcription of the RFC 9000 A.3 pseudocode, wire bytes of truncated numbers, and TxPacketNumbers (strictly increasing, ACK of an unsent packet rejected, largest-acked monotone) are discharged on the real code by Kani/CBMC (loop-free, complete); Verus proves the RFC A.3 reconstruction lemma independently and the history lemmas (wire numbers strictly increase; ACK ranges are a subset of processed packets given the one-step contracts).",
+        "note": "The ACK-range one-step contracts (ack::Ranges::insert_packet_number_range, AckManager::on_processed_packet/on_transmit) could NOT be discharged on the real code: every bounded harness timed out in CBMC (VecDeque<Interval> symbolic execution), drafts are kept under probes/. The lemma part 'ACKs name only processed packets' is therefore conditional on undischarged contracts, and the ack-delay / prompt-acknowledgement clause is not decided. Glue unverified: packet spaces call on_processed_packet only after successful processing.",
+        "design": "5/C08",
+    },
     "C03": {
         "text": "Function contracts (pre/post over the whole abstract state, frame, representation invariant) on the sender-side flow controllers and the stream-count controller are discharged on the real transport crate by Kani/CBMC for all argument values (loop-free, full 62-bit domains: complete, not sampled); Verus then proves by induction over arbitrary-length histories, for any number of streams, that those contracts imply the stated limits. Proof level is right because the property is a safety invariant over integers that decomposes into per-call contracts.",
         "note": "Trusted: the glue between the contracted controllers and the wire (SendStream::on_transmit wiring, manager dispatch of MAX_* frames, transport-parameter plumbing), Kani/CBMC/Verus/Z3, dev-profile semantics, harness state builders generate every state satisfying the invariant.",
